@@ -46,7 +46,7 @@ def plan_c17(K, ctx):
         pool_terms.append(t)
         pool_names.extend(list(names_in(t))[:3])
         ops = []
-        for _ in range(rnd.randint(3, 8)):
+        for _ in range(rnd.randint(3, 8) if rnd.random() < 0.95 else rnd.choice([16, 17, 33, 40])):
             if rnd.random() < 0.5:
                 ops.append({"op": "set_name", "n": rname()})
             else:
@@ -203,6 +203,8 @@ def spellable(K, ctx, v):
     """can the TLA+ side classify every character of every name (is it in the dumped working alphabet)?"""
     if not hasattr(ctx, "_alphabet"):
         ctx._alphabet = set(json.load(open(os.path.join(ctx.rundir, "vocab.json"), encoding="utf-8"))["alphabet"])
+    if len(json.dumps(v)) > 8000:
+        return False          # the handful of very large values: the judge compares results, the (quadratic) model run is not asked for
     return all(ch in ctx._alphabet for n in names_in(v) for ch in n)
 
 
@@ -251,7 +253,23 @@ def variant(t, rnd, miss):
     t = json.loads(json.dumps(t))
     hit = [False]
 
+    def wrap(x):
+        # structural near misses: the term inside a double negation, or as the only component of a compound
+        k = rnd.randrange(5)
+        if k == 0:
+            return {"k": "Negation", "a": {"k": "Negation", "a": x}}
+        if k == 1:
+            return {"k": rnd.choice(["SetExtension", "SetIntension", "Conjunction", "Disjunction", "IntersectionExtension"]), "s": [x]}
+        if k == 2:
+            return {"k": rnd.choice(["Product", "ConjunctionSequential"]), "q": [x]}
+        if k == 3:
+            return {"k": "Negation", "a": x}
+        return {"k": "ImageExtension", "i": 1, "q": [x]}
+
     def walk(x):
+        if miss and not hit[0] and rnd.random() < 0.12:
+            hit[0] = True
+            return wrap(json.loads(json.dumps(x)))
         if "s" in x:
             x["s"] = [walk(y) for y in x["s"]]
             rnd.shuffle(x["s"])
@@ -340,7 +358,8 @@ def randws_stage(K, ctx, tag, what, count):
             with open(vals, "w", encoding="utf-8") as g:
                 for line in open(allv, encoding="utf-8"):
                     r = json.loads(line)
-                    if r["fmt"] == fmt and spellable(K, ctx, r["v"]):
+                    # the model parser is run on nine spacings of every value: long values (wide nodes) are left to the other stages
+                    if r["fmt"] == fmt and len(line) <= 1500 and spellable(K, ctx, r["v"]):
                         g.write(line)
             K.pipeline(ctx, fmt, tag, "MC_RandWS", rcfg, "J_Pipe", lambda c: True, workers=5, shards=4 if ctx.tier == "thorough" else 2,
                        env_extra={"NV_VALUES": vals})
@@ -355,7 +374,7 @@ def plan_c10(K, ctx):
     K.parallel([(lambda f=f: K.pipeline(ctx, f, "c10", "MC_C10", cfg, "J_Pipe", lambda c: True, workers=5,
                                         shards=4 if ctx.tier == "thorough" else 2)) for f in K.FORMATS])
     # seeded random values written back with sugar (Resugar) and every derived copula over the operands of random statements
-    randws_stage(K, ctx, "c10rand", "sugar", 500 if ctx.tier == "quick" else 30000)
+    randws_stage(K, ctx, "c10rand", "sugar", 400 if ctx.tier == "quick" else 4000)
     return {
         "note": "Sugar.tla states the meaning of the surface sugar independently (Desugar): the four derived copulas over an operand pool (atoms of "
                 "every kind, one representative compound per shape, a sample / all of U1), image component lists of length 1..3 with one or two "
@@ -373,7 +392,7 @@ def plan_c09(K, ctx):
            "INVARIANT SpacingIrrelevant\nINVARIANT Emit\nCHECK_DEADLOCK FALSE\n")
     K.parallel([(lambda f=f: K.pipeline(ctx, f, "c09", "MC_C09", cfg, "J_Pipe", lambda c: sum(1 for t in c["s"] if t == " ") != 0 or True,
                                         workers=5, shards=5 if ctx.tier == "thorough" else 3)) for f in K.FORMATS])
-    randws_stage(K, ctx, "c09rand", "ws", 1500 if ctx.tier == "quick" else 45000)
+    randws_stage(K, ctx, "c09rand", "ws", 900 if ctx.tier == "quick" else 9000)
     return {
         "note": "EnumFormat.tla gives the token sequence of a value; a state of MC_C09 is (value, spacing). Explored per value: 0/1/2 spaces "
                 "everywhere, every single boundary opened alone and closed alone (exhaustive over the boundaries of each explored value), a wide "
@@ -433,7 +452,7 @@ def plan_c08(K, ctx):
             r2 = random.Random(f"{ctx.seed}-{fmt}")
             with open(cmds, "w", encoding="utf-8") as g:
                 for _ in range(len(pool[fmt]) // 3):
-                    g.write(json.dumps({"op": op, "fmt": fmt, "inputs": [r2.choice(pool[fmt]) for _ in range(r2.randint(2, 8))], "rand": True}, ensure_ascii=False) + "\n")
+                    g.write(json.dumps({"op": op, "fmt": fmt, "inputs": [r2.choice(pool[fmt]) for _ in range(r2.randint(2, 8) if r2.random() < 0.93 else r2.choice([16, 17, 32, 33, 64, 65]))], "rand": True}, ensure_ascii=False) + "\n")
             K.account(ctx, cmds, nontrivial)
             K.run_exec(ctx, cmds, obs)
             K.run_judge(ctx, judge, fmt, obs, f"{tag}_{fmt}_judge", shards=4 if ctx.tier == "thorough" else 2)
@@ -675,7 +694,7 @@ def plan_c11(K, ctx):
 
     K.pipeline(ctx, "ascii", "c11", "MC_C11", cfg, "J_C11", nontrivial, workers=8, shards=6 if ctx.tier == "thorough" else 3)
     # seeded random values with ASCII-spelt names: the grammar runs on the real formatter's text (no model prediction involved)
-    random_stage(K, ctx, "c11rand", lambda r, f: [{"op": "ascii_out", "v": r["v"], "rand": True}] if r["ascii_safe"] else [], "J_C11",
+    random_stage(K, ctx, "c11rand", lambda r, f: [{"op": "ascii_out", "v": r["v"], "rand": True}] if r["ascii_safe"] and (ctx.tier == "thorough" or not r.get("huge")) else [], "J_C11",
                  count=4000 if ctx.tier == "quick" else 100000, fmts=["ascii"], nontrivial=nontrivial, shards=2 if ctx.tier == "quick" else 6, split=False,
                  witnesses=[{"op": "ascii_out", "v": {"kind": "sentence", "v": {"t": {"k": "Word", "n": n}, "p": "Judgement", "st": {"k": "Eternal"}, "tr": []}}}
                             for n in ("a_-_b", "x---y", "a_--b", "a--_b")])   # known finding F10, always exercised
@@ -713,7 +732,7 @@ def plan_c15(K, ctx):
             "value_try_cast_to_sentence", "get_term", "std_try_term", "std_try_sentence", "std_try_task"]
 
     def life(r, f):
-        ops = [rnd.choice(base + ["reparse_" + f, "cast_to_task", "try_cast_to_sentence"]) for _ in range(rnd.randint(4, 10))]
+        ops = [rnd.choice(base + ["reparse_" + f, "cast_to_task", "try_cast_to_sentence"]) for _ in range(rnd.randint(4, 10) if rnd.random() < 0.95 else rnd.choice([17, 33, 40]))]
         return [{"op": "lifecycle", "model": "enum", "fmt": f, "ops": ops, "v": r["v"], "rand": True}]
     random_stage(K, ctx, "c15rand", life, "J_C15", count=3000 if ctx.tier == "quick" else 90000, nontrivial=nontrivial, shards=2 if ctx.tier == "quick" else 5)
     return {
@@ -865,7 +884,7 @@ def plan_c02(K, ctx):
                     if o.get("l", {}).get("r") == "ok":
                         lv = o["l"]["v"]
                         c = {"op": "rt_lex", "fmt": fmt, "v": lv, "rand": True}
-                        if not all(ch in alphabet for n in lex_names(lv) for ch in n):
+                        if len(line) > 16000 or not all(ch in alphabet for n in lex_names(lv) for ch in n):
                             c["exotic"] = True
                         g.write(json.dumps(c, ensure_ascii=False) + "\n")
             K.account(ctx, cmds, nontrivial)
